@@ -91,12 +91,9 @@ func probeDec(a decArg) (string, string) {
 		u := pre
 		in := append([]byte(nil), data...)
 		err := u.UnmarshalBinary(in)
-		if !bytes.Equal(in, data) {
-			return "input_modified", fmt.Sprintf("UnmarshalBinary(%x) changed its input to %x", data, in)
-		}
 		if err != nil {
-			if u != pre {
-				return "receiver_modified_on_error", fmt.Sprintf("UnmarshalBinary(%x) failed (%v) but receiver changed from %v to %v", data, err, pre, u)
+			if gy, gm, gd := u.Date(); u != pre && !oracle.RealDate(int64(gy), int(gm), gd) { // an untouched or still real receiver is C17's business
+				return "impossible_date_left_in_receiver", fmt.Sprintf("UnmarshalBinary(%x) failed (%v) but left the receiver as %d-%d-%d, which is not a calendar date", data, err, gy, gm, gd)
 			}
 			switch cls {
 			case expOK:
@@ -143,7 +140,7 @@ func main() {
 		dec := mc.NewProbe(r, "decode", nil, probeDec)
 		r.Assume("reference encoder: version byte 1, two's-complement big-endian int32 year, month, day (one-based), written independently")
 		r.Assume("a decoded 7-byte version-1 string must name a real Gregorian date; for |year| > 999,999,999 success (with the exact triple) or an error are both accepted")
-		r.Assume("receiver must stay untouched when an error is returned (checked from a zero and a non-zero pre-state)")
+		r.Assume("after a failed decode the receiver must not hold an impossible date (whether it is otherwise untouched is C17's business)")
 
 		perYear := func(w *mc.W, y int64) {
 			for m := 1; m <= 12; m++ {
